@@ -533,6 +533,8 @@ theorem pres_watchCancel (st : St) (a : Nat) : Pres st (watchCancel st a) := by
 theorem grow_with_slots (st : St) (l : List SlotRec) : Grow st { st with slots := l } := Grow.of_eq rfl rfl
 theorem grow_with_errno (st : St) (e : Int) : Grow st { st with errno := e } := Grow.of_eq rfl rfl
 theorem grow_with_children (st : St) (l : List Proc) : Grow st { st with children := l } := Grow.of_eq rfl rfl
+theorem grow_with_stillRunning (st : St) (b : Bool) : Grow st { st with stillRunning := b } := Grow.of_eq rfl rfl
+theorem grow_with_inRun (st : St) (b : Bool) : Grow st { st with inRun := b } := Grow.of_eq rfl rfl
 
 theorem pres_doRegister (st : St) (k : Int) (reg : St → St × Nat) (h : ∀ s, Pres s (reg s).1) :
     Pres st (doRegister st k reg) := by
@@ -579,6 +581,7 @@ theorem pres_runAct (st : St) (act : Act) : Pres st (runAct st act) := by
         · exact Pres.refl _
         · exact (grow_with_children _ _).pres
       · exact Pres.refl _
+    · exact (grow_with_stillRunning _ _).pres
     · exact Pres.refl _
 
 theorem pres_runActs (acts : List Act) : ∀ st : St,
@@ -933,6 +936,30 @@ theorem pres_onSigchld (fuel : Nat) : ∀ (st : St) (this : Option Nat), Pres st
         · exact (grow_fail _ _).pres
         · exact (pres_procStep _ _).trans (ih _ _)
 
+theorem pres_procSnapLoop (l : List Nat) : ∀ st : St, Pres st (procSnapLoop st l) := by
+  induction l with
+  | nil => intro st; exact Pres.refl st
+  | cons a rest ih =>
+    intro st
+    unfold procSnapLoop
+    split
+    · exact Pres.refl _
+    · split
+      · exact (grow_fail _ _).pres
+      · split
+        · exact ih _
+        · split
+          · exact (grow_fail _ _).pres
+          · exact (pres_procStep _ _).trans (ih _)
+
+theorem pres_onSigchldAny (fuel : Nat) (st : St) : Pres st (onSigchldAny fuel st) := by
+  unfold onSigchldAny
+  split
+  · split
+    · exact (grow_fail _ _).pres
+    · exact pres_procSnapLoop _ _
+  · exact pres_onSigchld _ _ _
+
 theorem pres_processNotify (st : St) (a : Nat) : Pres st (processNotify st a) := by
   unfold processNotify
   split
@@ -1044,8 +1071,10 @@ theorem pres_sigCb (fuel : Nat) (st : St) (a : Nat) (s : Int) : Pres st (sigCb f
   · split
     · exact pres_fireUser _ _ _ _
     · split
-      · exact pres_onSigchld _ _ _
-      · exact Pres.refl _
+      · exact pres_onSigchldAny _ _
+      · split
+        · exact (grow_with_stillRunning _ _).pres
+        · exact Pres.refl _
   · exact Pres.refl _
 
 theorem pres_sigwatchLoopT (fuel : Nat) : ∀ (st : St) (s : Int) (this : Option Nat), Pres st (sigwatchLoopT fuel st s this).1 := by
@@ -1069,6 +1098,30 @@ theorem pres_sigwatchLoopT (fuel : Nat) : ∀ (st : St) (s : Int) (this : Option
 theorem pres_sigwatchLoop (fuel : Nat) (st : St) (s : Int) (this : Option Nat) : Pres st (sigwatchLoop fuel st s this) :=
   pres_sigwatchLoopT fuel st s this
 
+theorem pres_sigSnapLoopT (fuel : Nat) (s : Int) (l : List Nat) : ∀ st : St, Pres st (sigSnapLoopT fuel st s l).1 := by
+  induction l with
+  | nil => intro st; exact Pres.refl st
+  | cons a rest ih =>
+    intro st
+    unfold sigSnapLoopT
+    split
+    · exact Pres.refl _
+    · split
+      · exact (grow_fail _ _).pres
+      · split
+        · exact ih _
+        · split
+          · exact (grow_fail _ _).pres
+          · exact (pres_sigCb _ _ _ _).trans (ih _)
+
+theorem pres_sigDispatch (fuel : Nat) (st : St) (s : Int) : Pres st (sigDispatch fuel st s) := by
+  unfold sigDispatch
+  split
+  · split
+    · exact (grow_fail _ _).pres
+    · exact pres_sigSnapLoopT _ _ _ _
+  · exact pres_sigwatchLoop _ _ _ _
+
 theorem pres_dispatchLoop (fuel : Nat) (pending : List Int) (l : List Int) : ∀ st : St, Pres st (dispatchLoop fuel st pending l) := by
   induction l with
   | nil => intro st; exact Pres.refl st
@@ -1077,7 +1130,7 @@ theorem pres_dispatchLoop (fuel : Nat) (pending : List Int) (l : List Int) : ∀
     unfold dispatchLoop
     refine Pres.trans ?_ (ih _)
     split
-    · exact pres_sigwatchLoop _ _ _ _
+    · exact pres_sigDispatch _ _ _
     · exact Pres.refl _
 
 theorem grow_with_pendingSig (st : St) (l : List Int) : Grow st { st with pendingSig := l } := Grow.of_eq rfl rfl
@@ -1094,12 +1147,12 @@ theorem pres_ioCb (st : St) (s : PollSlot) : Pres st (ioCb st s) := by
     · exact pres_invokeWatch _ _ _ _
   · exact Pres.refl _
 
-theorem pres_ioLoop (fuel : Nat) : ∀ (st : St) (idx : Nat), Pres st (ioLoop fuel st idx) := by
+theorem pres_ioLoopT (fuel : Nat) : ∀ (st : St) (idx : Nat), Pres st (ioLoopT fuel st idx).1 := by
   induction fuel with
-  | zero => intro st idx; unfold ioLoop; exact pres_outOfFuel st
+  | zero => intro st idx; unfold ioLoopT; exact pres_outOfFuel st
   | succ n ih =>
     intro st idx
-    unfold ioLoop
+    unfold ioLoopT
     split
     · exact Pres.refl _
     · split
@@ -1109,6 +1162,8 @@ theorem pres_ioLoop (fuel : Nat) : ∀ (st : St) (idx : Nat), Pres st (ioLoop fu
         · split
           · exact ih _ _
           · exact (pres_ioCb _ _).trans (ih _ _)
+
+theorem pres_ioLoop (fuel : Nat) (st : St) (idx : Nat) : Pres st (ioLoop fuel st idx) := pres_ioLoopT fuel st idx
 
 theorem grow_foldl_raiseSig (l : List Int) : ∀ st : St, Grow st (l.foldl raiseSig st) := by
   induction l with
@@ -1172,6 +1227,50 @@ theorem pres_tick (fuel : Nat) (st : St) (nohang : Bool) : Pres st (tick fuel st
       · exact ((grow_nextTimerMsec _).trans (grow_ppoll _ _)).pres
       · exact ((grow_nextTimerMsec _).trans (grow_ppoll _ _)).pres.trans (pres_tickAfterPoll _ _ _)
 
+theorem grow_ppollRun (st : St) (t : Option Int) : Grow st (ppollRun st t).1 := by
+  unfold ppollRun
+  split
+  · exact grow_ppoll _ _
+  · split
+    · exact ((grow_ppoll st t).trans (Grow.of_eq rfl rfl : Grow (ppoll st t).1
+        { (ppoll st t).1 with runPolls := (ppoll st t).1.runPolls + 1, stillRunning := false })).trans (grow_emit _ _)
+    · exact (grow_ppoll st t).trans (Grow.of_eq rfl rfl : Grow (ppoll st t).1
+        { (ppoll st t).1 with runPolls := (ppoll st t).1.runPolls + 1 })
+
+theorem pres_runIter (fuel : Nat) (st : St) : Pres st (runIter fuel st) := by
+  unfold runIter
+  split
+  · exact Pres.refl _
+  · split
+    · exact (grow_nextTimerMsec _).pres
+    · split
+      · exact ((grow_nextTimerMsec _).trans (grow_ppollRun _ _)).pres
+      · exact ((grow_nextTimerMsec _).trans (grow_ppollRun _ _)).pres.trans (pres_tickAfterPoll _ _ _)
+
+theorem pres_runLoop (fuel : Nat) (n : Nat) : ∀ st : St, Pres st (runLoop fuel n st) := by
+  induction n with
+  | zero => intro st; unfold runLoop; exact pres_outOfFuel st
+  | succ k ih =>
+    intro st
+    unfold runLoop
+    split
+    · exact Pres.refl _
+    · split
+      · exact Pres.refl _
+      · exact (pres_runIter _ _).trans (ih _)
+
+theorem grow_run_start (st : St) : Grow st { (watchSignal st 2 0 (-5)).1 with stillRunning := true, inRun := true, runPolls := 0 } :=
+  (grow_watchSignal st 2 0 (-5)).trans (Grow.of_eq rfl rfl)
+
+theorem pres_run (fuel : Nat) (st : St) : Pres st (run fuel st) := by
+  unfold run
+  split
+  · exact Pres.refl _
+  · split
+    · exact (grow_run_start st).pres.trans (pres_runLoop _ _ _)
+    · exact (((grow_run_start st).pres.trans (pres_runLoop _ _ _)).trans (grow_with_inRun _ _).pres).trans
+        (pres_watchCancel _ _)
+
 theorem grow_destroyNotify (st : St) (a : Nat) : Grow st (destroyNotify st a) := by
   unfold destroyNotify
   split
@@ -1225,8 +1324,9 @@ theorem pres_applyOp' (st : St) (op : Op) : Pres st (applyOp' st op) := by
         · exact Grow.pres (Grow.of_eq rfl rfl)
         · exact Grow.pres (Grow.of_eq rfl rfl)
         · exact Grow.pres (Grow.of_eq rfl rfl)
-        · exact pres_tick _ _ _
-        · exact pres_tick _ _ _
+        · exact (grow_with_stillRunning _ _).pres.trans (pres_tick _ _ _)
+        · exact (grow_with_stillRunning _ _).pres.trans (pres_tick _ _ _)
+        · exact pres_run _ _
         · exact pres_destroy _
         · exact Pres.refl _
 
@@ -1816,7 +1916,8 @@ theorem pollScan_exact (st : St) (idx : Nat) (h : idx < st.pfd.length) :
 /-- A cancelled entry (`fd == -1`) is skipped by the descriptor loop. -/
 theorem ioLoop_skips_cancelled (fuel : Nat) (st : St) (idx : Nat) (hok : st.isOk = true) (hlt : idx < st.pfd.length)
     (hfd : (st.pfd.getD idx default).fd = -1) : ioLoop (fuel + 1) st idx = ioLoop fuel st (idx + 1) := by
-  rw [ioLoop]
+  unfold ioLoop
+  rw [ioLoopT]
   simp only [hok, Bool.not_true, Bool.false_eq_true, if_false, hfd, if_true]
   rw [if_neg (by omega)]
 
@@ -1824,7 +1925,8 @@ theorem ioLoop_skips_cancelled (fuel : Nat) (st : St) (idx : Nat) (hok : st.isOk
 theorem ioLoop_skips_quiet (fuel : Nat) (st : St) (idx : Nat) (hok : st.isOk = true) (hlt : idx < st.pfd.length)
     (hfd : (st.pfd.getD idx default).fd ≠ -1) (hr : (st.pfd.getD idx default).revents = some 0) :
     ioLoop (fuel + 1) st idx = ioLoop fuel st (idx + 1) := by
-  rw [ioLoop]
+  unfold ioLoop
+  rw [ioLoopT]
   have : slotRevents (st.pfd.getD idx default) = 0 := by unfold slotRevents; rw [hr]
   simp only [hok, Bool.not_true, Bool.false_eq_true, if_false, hfd, this, if_true]
   rw [if_neg (by omega)]
@@ -1836,7 +1938,8 @@ theorem ioLoop_invokes (fuel : Nat) (st : St) (idx : Nat) (a : Nat) (hok : st.is
     (hw : (st.pfd.getD idx default).watch = some a) (hl : st.live a = true) :
     ioLoop (fuel + 1) st idx =
       ioLoop fuel (invokeWatch st a EV_FIRE (.io (st.getW a).fd (condOfRevents (slotRevents (st.pfd.getD idx default))))) (idx + 1) := by
-  rw [ioLoop]
+  unfold ioLoop
+  rw [ioLoopT]
   simp only [hok, Bool.not_true, Bool.false_eq_true, if_false, hfd, hr]
   rw [if_neg (by omega)]
   unfold ioCb
